@@ -121,3 +121,72 @@ def started_tasks(repo, fi):
             out.append((args[0], repo.try_fold(name, fi.mod, fi.cls) if name is not None else None,
                         repo.try_fold(key, fi.mod, fi.cls) if key is not None else None, n))
     return out
+
+
+def connection_tasks(repo):
+    """The tasks GeckoAsyncSpa._connect starts, by interpretation: a GeckoAsyncSpa is built by its constructor with
+    stand-in collaborators, `_connect` runs on a model event loop up to its first request (which the model protocol
+    leaves unanswered), and every add_task call is recorded.  Returns a list of dicts
+      {"name", "key", "kind": "consume" | "coroutine", "handler": class name | None, "callbacks": [method names],
+       "coroutine": method name | None}
+    however the calls are spelled (helpers, tables of factories, loops)."""
+    from .absint import BoundMethod, ClassRef, Closure, Interp, Native, Obj, Opaque, PyRaise, Undecided
+    from .core import AnalysisError
+    S = "GeckoAsyncSpa"
+    it = Interp(repo, max_depth=14)
+    tasks = []
+    tm = Obj(None, {"add_task": Native(lambda a, k: tasks.append((a[0], a[1] if len(a) > 1 else k.get("name_"), a[2] if len(a) > 2 else k.get("key_"))), "add_task"),
+                    "cancel_key_tasks": Native(lambda a, k: None, "cancel_key_tasks"), "unique_id": "SPA-ID", "spa_name": "My spa"}, name="taskman")
+    descriptor = Obj(None, {"destination": ("10.0.0.5", 10022), "identifier": b"SPA-ID", "identifier_as_string": "SPA-ID", "name": "My spa",
+                            "ipaddress": "10.0.0.5", "port": 10022}, name="descriptor")
+    transport = Obj(None, {"close": Native(lambda a, k: None), "sendto": Native(lambda a, k: None), "is_closing": Native(lambda a, k: False)}, name="transport")
+
+    def endpoint(a, k):
+        proto = a[0]([], {}) if isinstance(a[0], Closure) else it.apply(a[0], [], {})
+        if isinstance(proto, Obj) and proto.cls is not None:
+            cm = repo.method(proto.cls.short, "connection_made", required=False)
+            if cm is not None:
+                it.call(cm, proto, [transport])
+            proto.attrs["get"] = Native(lambda a2, k2: None, "get")   # nobody answers: _connect gives up at its first request
+        return (transport, proto)
+    loop = Obj(None, {"create_future": Native(lambda a, k: Obj(None, {"done": Native(lambda a2, k2: False), "set_result": Native(lambda a2, k2: None)}, name="future")),
+                      "create_datagram_endpoint": Native(endpoint, "create_datagram_endpoint")}, name="loop")
+    spa_box = []
+
+    def hook(it_, node, callee, args, kwargs):
+        nm = getattr(callee, "name", "")
+        if nm in ("asyncio.get_running_loop", "asyncio.get_event_loop"):
+            return loop
+        if nm == "asyncio.sleep":
+            return None
+        if nm in ("time.monotonic",):
+            return 100.0
+        if isinstance(callee, BoundMethod) and callee.fi.name == "consume":
+            return Obj(None, {"kind": "consume", "handler": callee.obj}, name="coroutine<consume>")
+        if isinstance(callee, BoundMethod) and spa_box and callee.obj is spa_box[0] and callee.fi.is_async and callee.fi.name != "_connect":
+            return Obj(None, {"kind": "coroutine", "method": callee.fi.name}, name=f"coroutine<{callee.fi.name}>")
+        return NotImplemented
+    it.call_hook = hook
+    try:
+        spa = it.apply(ClassRef(repo.cls(S)), [b"CLIENT-ID", descriptor, tm, Native(lambda a, k: None, "event_handler")], {})
+        spa_box.append(spa)
+        it.steps = 0
+        it.call(repo.method(S, "_connect"), spa, [])
+    except PyRaise as e:
+        raise AnalysisError(f"{S}._connect on the model event loop raises {e.what}")
+    except Undecided as e:
+        raise AnalysisError(f"{S}._connect on the model event loop: {e}")
+    out = []
+    for coro, name, key in tasks:
+        d = {"name": name, "key": key, "kind": None, "handler": None, "callbacks": [], "coroutine": None}
+        if isinstance(coro, Obj) and coro.attrs.get("kind") == "consume":
+            h = coro.attrs["handler"]
+            d["kind"] = "consume"
+            d["handler"] = h.cls.short if isinstance(h, Obj) and h.cls is not None else None
+            if isinstance(h, Obj):
+                d["callbacks"] = sorted({v.fi.name for v in h.attrs.values() if isinstance(v, BoundMethod) and v.obj is spa})
+        elif isinstance(coro, Obj) and coro.attrs.get("kind") == "coroutine":
+            d["kind"] = "coroutine"
+            d["coroutine"] = coro.attrs["method"]
+        out.append(d)
+    return out
